@@ -98,7 +98,8 @@ def allowed(name, L, recommended) -> object:
 
 
 # ------------------------------------------------------------------ JWS operations
-JWS_ENTRIES = ["compact", "flattened", "general", "rfc7797", "jwt"]
+# rfc7797-json / rfc7797-general: the RFC 7797 JSON functions on tokens WITHOUT a b64 member (they hand over to the RFC 7515 code)
+JWS_ENTRIES = ["compact", "flattened", "general", "rfc7797", "jwt", "rfc7797-json", "rfc7797-general"]
 
 
 def jws_call(op, entry, alg, style, L, reg_obj=None):
@@ -129,6 +130,10 @@ def jws_call(op, entry, alg, style, L, reg_obj=None):
                 return "ok", jws.serialize_json([{"protected": hdr}], payload, key, **kw)
             if entry == "rfc7797":
                 return "ok", rfc7797.serialize_compact({"alg": alg, "b64": False, "crit": ["b64"]}, b"payload", key, **kw)
+            if entry == "rfc7797-json":
+                return "ok", rfc7797.serialize_json({"protected": hdr}, payload, key, **kw)
+            if entry == "rfc7797-general":
+                return "skip", None
             return "ok", jwt.encode(hdr, {"a": 1}, key, **kw)
         # verify: reference-minted token naming exactly this alg
         real = alg if isinstance(alg, str) and alg in rjws.KTY else "HS256"
@@ -144,7 +149,9 @@ def jws_call(op, entry, alg, style, L, reg_obj=None):
                 return "ok", jwt.decode(tok, key, **kw)
             return "ok", jws.deserialize_compact(tok, key, **kw)
         sig = rjws.make_json_signature(ptext, None, payload, real, rkey)
-        tok = {"payload": rb.encode(payload), **sig} if entry == "flattened" else {"payload": rb.encode(payload), "signatures": [sig]}
+        tok = {"payload": rb.encode(payload), **sig} if entry in ("flattened", "rfc7797-json") else {"payload": rb.encode(payload), "signatures": [sig]}
+        if entry.startswith("rfc7797-"):
+            return "ok", rfc7797.deserialize_json(tok, key, **kw)
         return "ok", jws.deserialize_json(tok, key, **kw)
     except Exception as e:
         return "err", e
@@ -418,6 +425,8 @@ class HistoryState:
             else:
                 cell = {"kind": "jws", "op": op, "entry": entry, "names": names, "style": "default", "L": None}
                 out = jws_call(op, entry, alg, "default", None)
+            if out[0] == "skip":
+                return None
             return cell, judge("jws", op, entry, names, None, cell["style"], cell["L"], out)
         alg, enc = st_["alg"], st_["enc"]
         if alg.startswith("ECDH-1PU+") and enc not in jweplan.CBC:
